@@ -11,4 +11,6 @@ Definition magic_actual : mquirks := {|
   q_ts_bigint_dropped := true;
   q_ts_test_marker_anywhere := true;
   q_ts_single_letter_const := true;
-  q_rs_hex_suffix_clash := true |}.
+  q_rs_hex_suffix_clash := true;
+  q_py_enumerate_kw_flagged := true;
+  q_py_upper_binop_flagged := true |}.
